@@ -457,7 +457,7 @@ class MemoryFS(FS):
                 raise errors.FileExpected(src_path)
 
             dst_dir_entry = self._get_dir_entry(dst_dir)
-            if dst_dir_entry is None:
+            if dst_dir_entry is None or not dst_dir_entry.is_dir:
                 raise errors.ResourceNotFound(dst_path)
             elif not overwrite and dst_name in dst_dir_entry:
                 raise errors.DestinationExists(dst_path)
@@ -467,6 +467,11 @@ class MemoryFS(FS):
                 if overwrite:
                     return
                 raise errors.DestinationExists(dst_path)
+
+            # the destination must not be a directory (or the root)
+            dst_entry = dst_dir_entry.get_entry(dst_name)
+            if not dst_name or (dst_entry is not None and dst_entry.is_dir):
+                raise errors.FileExpected(dst_path)
 
             # move the entry from the src folder to the dst folder
             dst_dir_entry.set_entry(dst_name, src_entry)
